@@ -1,9 +1,15 @@
 package pc14
 
 import (
+	"runtime/debug"
 	"testing"
 
 	"verifharness/ev"
 )
 
-func TestMain(m *testing.M) { ev.Main(m) }
+func TestMain(m *testing.M) {
+	// the cases are tiny and allocation-heavy (a btree free list per group-by run); the live heap stays small, so collect less often
+	debug.SetGCPercent(400)
+	debug.SetMemoryLimit(1 << 30) // soft cap per shard: the collector goes back to work early when the heap nears 1 GiB (thorough tier)
+	ev.Main(m)
+}
